@@ -141,6 +141,7 @@ type Unit struct {
 	DetDisciplines   []DetDiscipline
 	ReachDisciplines []ReachDiscipline
 	FrozenDisciplines []FrozenDiscipline
+	SortDisciplines  [][]string // tags of each "discipline sort-less-over-sorted"
 	FieldDisciplines []FieldDiscipline
 	Disciplines []Discipline
 	Name     string
@@ -580,6 +581,18 @@ func (cs *ContractSet) parseFile(file, relDir string) error {
 					}
 				}
 				unit.ReachDisciplines = append(unit.ReachDisciplines, rd)
+				continue
+			}
+			if unit != nil && strings.HasPrefix(s.rest, "sort-less-over-sorted") {
+				// discipline sort-less-over-sorted tags T: the comparison closure handed to sort.Slice /
+				// sort.SliceStable indexes the slice that is being sorted (when it captures slices at all, one of
+				// them is the sorted one)
+				rest := strings.TrimPrefix(s.rest, "sort-less-over-sorted")
+				var tags []string
+				if k := strings.Index(rest, "tags "); k >= 0 {
+					tags = strings.Fields(rest[k+5:])
+				}
+				unit.SortDisciplines = append(unit.SortDisciplines, tags)
 				continue
 			}
 			if unit != nil && strings.HasPrefix(s.rest, "captures-frozen ") {
